@@ -926,11 +926,13 @@ def split_to_sequence(
         split_dimension_size = split_shape[0]
         assert isinstance(split_dimension_size, int)
         num_outputs = split_dimension_size
+        chunk_sizes = split_value.tolist() if split_value is not None else None
         split_outputs = [f"{output.name}_split_{i}" for i in range(num_outputs)]
         split_values = op.Split(input, split, axis=axis, _outputs=split_outputs)
     elif split_value.ndim == 1:
         # split into 'size(split)' chunks
         num_outputs = split_value.size
+        chunk_sizes = split_value.tolist()
         split_outputs = [f"{output.name}_split_{i}" for i in range(num_outputs)]
         split_values = op.Split(input, split, axis=axis, _outputs=split_outputs)
     elif split_value.ndim == 0:
@@ -943,6 +945,9 @@ def split_to_sequence(
             # Invalid split size; bail out instead of raising.
             return None
         num_outputs = math.ceil(split_dimension_size / split_size)
+        chunk_sizes = [split_size] * (split_dimension_size // split_size)
+        if split_dimension_size % split_size != 0:
+            chunk_sizes.append(split_dimension_size % split_size)
         split_outputs = [f"{output.name}_split_{i}" for i in range(num_outputs)]
         if split_dimension_size % split_size != 0:
             # Uneven split: the last chunk is smaller. We must pass explicit split
@@ -979,6 +984,9 @@ def split_to_sequence(
         return None
     if keepdims == 0:
         # squeeze the split dimension if keepdims is 0
+        if chunk_sizes is not None and any(size != 1 for size in chunk_sizes):
+            # Only a dimension of size 1 can be squeezed.
+            return None
         axis_val = _int64_constant(op, [axis], _outputs=[f"{output.name}_axis"])
         squeezed_values = []
         for i in range(num_outputs):
